@@ -366,21 +366,7 @@ def generate(repo):
             src = W(S(fn))
             for fr in frags:
                 need(' '.join(fr.split()) in src, '%s: missing `%s`' % (fn, fr[:50]))
-        has('swapRes', 'if index1 == index2: return Sequence(self.seq)', 'tempseq = list(self.seq)',
-            'tempseq[index1], tempseq[index2] = (tempseq[index2], tempseq[index1])',
-            'tempChargeSeq = cp.deepcopy(self.chargePattern)', 'tempChargeSeq[index1] = charge2', 'tempChargeSeq[index2] = charge1',
-            "return Sequence(''.join(tempseq), self.dmax, tempChargeSeq)")
-        has('swapRandChargeRes', 'posInd = set(np.where(self.chargePattern > 0)[0]) - frozen',
-            'negInd = set(np.where(self.chargePattern < 0)[0]) - frozen', 'neutInd = set(np.where(self.chargePattern == 0)[0]) - frozen',
-            'if len(neutInd) == 0: if len(posInd) == 0 or len(negInd) == 0:', 'chargeType = [1, 2]',
-            'elif len(negInd) == 0: if len(posInd) == 0 or len(neutInd) == 0:', 'chargeType = [1, 3]',
-            'elif len(posInd) == 0: if len(negInd) == 0 or len(neutInd) == 0:', 'chargeType = [2, 3]',
-            'chargeType = rand.sample([1, 2, 3], 2)', 'if chargeType[0] == 1: swapPair1 = rand.sample(sorted(posInd), 1)',
-            'elif chargeType[0] == 2: swapPair1 = rand.sample(sorted(negInd), 1)', 'elif chargeType[0] == 3: swapPair1 = rand.sample(sorted(neutInd), 1)',
-            'if chargeType[1] == 1: swapPair2 = rand.sample(sorted(posInd), 1)', 'return self.swapRes(swapPair1[0], swapPair2[0])')
-        has('full_shuffle', 'moveable_indicies = set(np.arange(0, self.len)) - set(frozen)', 'newseq = list(moveable_indicies)',
-            'rand.shuffle(newseq)', 'for i in range(0, self.len): if i in frozen: new_seq.append(lookup[i]) else: new_seq.append(lookup[newseq.pop()])',
-            "return Sequence(''.join(new_seq), self.dmax)")
+        # swapRes, swapRandChargeRes and full_shuffle are tied semantically (g_minipy -> Props/Tie/minipy_moves_tie.v)
         has('permute_block_swap', 'max_block_size = floor(self.len / 2)', 'min_block_size = 2',
             'block_size = rand.randint(min_block_size, max_block_size)', 'possible_start_idxs = list(range(self.len - (block_size - 1) * 2))',
             'for i in sorted(rand.sample(possible_start_idxs, 2)): i += offset blocks_to_swap.append(seq_idxs[i:i + block_size]) offset += block_size - 1',
